@@ -108,6 +108,9 @@ func tamperSignature(mt string, env []byte) []byte {
 		var sig string
 		json.Unmarshal(m["signature"], &sig)
 		b := []byte(sig)
+		if len(b) < 4 {
+			return out
+		}
 		if b[3] == 'A' {
 			b[3] = 'B'
 		} else {
@@ -118,6 +121,9 @@ func tamperSignature(mt string, env []byte) []byte {
 		return out
 	}
 	// COSE_Sign1: the signature is the last byte string of the array
+	if len(out) < 3 {
+		return out
+	}
 	out[len(out)-3] ^= 0x01
 	return out
 }
